@@ -146,8 +146,14 @@ func (x *Exec) verify() (res verifyResult) {
 		v := env.eval(mustParse(m.Text))
 		s.assume(env.invOf(v, ""))
 	}
+	env.assumeHeld = true
 	for _, c := range x.spec.Requires {
 		s.assume(env.evalBool(c.Expr))
+	}
+	env.assumeHeld = false
+	x.entryHeld = map[string]bool{}
+	for k := range s.held {
+		x.entryHeld[k] = true
 	}
 	x.entryHeap = copyHeap(s.heap)
 	// vacuity guard: the precondition must be satisfiable
@@ -508,6 +514,28 @@ func (x *Exec) callIsFramed(s *State, cc *ssa.CallCommon) bool {
 func (x *Exec) havocCalleeAssignsStatic(s *State, cc *ssa.CallCommon) {
 	f, ok := cc.Value.(*ssa.Function)
 	if !ok {
+		// function value / interface method: havoc ghost arrays named by its contract
+		name := x.calleeEventName(cc)
+		name = strings.TrimPrefix(name, "funcvalue:")
+		if sp, ok := x.P.specs.Funcs[name]; ok {
+			for _, a := range sp.Assigns {
+				ex := mustParse(a)
+				if ex.Op != "sel" {
+					continue
+				}
+				for key, g := range x.P.specs.Ghosts {
+					if strings.HasSuffix(key, "."+ex.Tok) {
+						gt, err := x.P.lookupType(g.Type)
+						if err != nil {
+							continue
+						}
+						for _, lf := range leavesOf(gt) {
+							x.heapHavocAll(s, "ghost:"+key+lf.Suffix, lf.Sort)
+						}
+					}
+				}
+			}
+		}
 		return
 	}
 	sp, ok := x.P.specs.Funcs[fnName(f)]
@@ -626,11 +654,35 @@ func (x *Exec) resultVars(res []Val) map[string]Val {
 }
 
 func (x *Exec) checkPost(s *State, res []Val) {
-	if len(s.held) > 0 && x.checkOwn {
+	if x.checkOwn {
 		for k := range s.held {
+			if x.entryHeld[k] {
+				continue
+			}
 			x.emit(s, "owns", "lock_released_at_return", x.spec.Owns, "false", nil)
-			_ = k
 			break
+		}
+	}
+	// ghost assignments at exit (all right-hand sides are evaluated first, then assigned)
+	if len(x.spec.GhostSets) > 0 {
+		genv := x.specEnv(s, x.entryHeap, x.resultVars(res))
+		var vals []Val
+		for _, gs := range x.spec.GhostSets {
+			vals = append(vals, genv.eval(mustParse(gs[1])))
+		}
+		for i, gs := range x.spec.GhostSets {
+			for j, t := range x.assignTargets(s, genv, gs[0]) {
+				if !strings.HasPrefix(t.arr, "ghost_") {
+					specFail("ghostset target %s is not a ghost field", gs[0])
+				}
+				v := vals[i]
+				term := v.L[j]
+				if isUntyped(v.Typ) && strings.Contains(t.sort, " F)") {
+					term = genv.untypedToFloat(v)
+				}
+				elem := strings.TrimSuffix(strings.TrimPrefix(t.sort, "(Array Int "), ")")
+				x.heapStore(s, t.arr, elem, t.base, term)
+			}
 		}
 	}
 	env := x.specEnv(s, x.entryHeap, x.resultVars(res))
@@ -648,6 +700,9 @@ func (x *Exec) checkPost(s *State, res []Val) {
 			continue
 		}
 		x.emit(s, "ensures", c.Label, c.Props, env.evalBool(c.Expr), c)
+	}
+	if x.spec.Implements != "" {
+		x.checkImplements(s, res)
 	}
 	for _, m := range x.spec.Maintains {
 		v := env.eval(mustParse(m.Text))
@@ -751,6 +806,15 @@ func (x *Exec) assignTargets(s *State, env *Env, a string) []assignTarget {
 				}
 				return out
 			}
+		case *types.Signature:
+			owner := typeKey(t)
+			if g, ok := x.P.specs.Ghosts[owner+"."+ex.Tok]; ok {
+				gt, _ := x.P.lookupType(g.Type)
+				for _, lf := range leavesOf(gt) {
+					out = append(out, assignTarget{x.arrName("ghost:" + owner + "." + ex.Tok + lf.Suffix), base.L[1], "(Array Int " + lf.Sort + ")"})
+				}
+				return out
+			}
 		case *types.Interface:
 			owner := typeKey(t)
 			if g, ok := x.P.specs.Ghosts[owner+"."+ex.Tok]; ok {
@@ -809,4 +873,48 @@ func (x *Exec) havocAssign(s *State, env *Env, a string) {
 func parseIntLit(s string) (int, bool) {
 	n, err := strconv.Atoi(s)
 	return n, err == nil
+}
+
+// checkImplements: a default closure installed into a function-typed field must satisfy that
+// field's contract (refinement obligation of DESIGN §2.9). Clauses that mention the owning
+// object cannot be stated for the closure alone and are skipped (noted).
+func (x *Exec) checkImplements(s *State, res []Val) {
+	fc, ok := x.P.specs.Funcs[x.spec.Implements]
+	if !ok {
+		specFail("implements: no contract %s", x.spec.Implements)
+	}
+	vars := x.resultVars(res)
+	real := x.fn.Params
+	for i, n := range fc.Params {
+		if i < len(real) {
+			vars[n] = s.frames[0].regs[real[i]]
+			if v, ok := x.params[real[i].Name()]; ok {
+				vars[n] = v
+			}
+		}
+	}
+	env := &Env{x: x, s: s, vars: vars, heap: s.heap, old: x.entryHeap, events: s.events}
+	for _, c := range fc.Ensures {
+		if mentions(c.Expr, "owner") {
+			x.note("implements " + fc.Name + ": clause " + c.Label + " mentions the owning object and is assumed for the default closure")
+			continue
+		}
+		if !hasProp(c.Props, x.prop) && len(c.Props) > 0 && x.prop != "" {
+			continue
+		}
+		props := c.Props
+		x.emit(s, "implements", shortName(fc.Name)+"."+c.Label, props, env.evalBool(c.Expr), c)
+	}
+}
+
+func mentions(e *SExpr, id string) bool {
+	if e.Op == "id" && e.Tok == id {
+		return true
+	}
+	for _, a := range e.Args {
+		if mentions(a, id) {
+			return true
+		}
+	}
+	return false
 }
